@@ -179,7 +179,8 @@ def main(argv=None):
 
 _JOBS = []
 _CTX = None
-MAX_REPLAYED_PER_OBLIGATION = 12
+MAX_REPLAYED_PER_OBLIGATION = 48
+REPLAY_BUDGET_S = {"quick": 90, "thorough": 900}
 
 
 def _work(i):
@@ -201,6 +202,7 @@ def _work(i):
     cands = []
     seen = set()
     replayed = 0
+    t_replay = time.time()
     for c in sub.candidates:
         key = json.dumps(c.facts, sort_keys=True, default=str)
         if key in seen:
@@ -212,8 +214,8 @@ def _work(i):
             d["why"] = "no public-API scenario template for this counterexample"
             cands.append(d)
             continue
-        if replayed >= MAX_REPLAYED_PER_OBLIGATION:
-            d["why"] = "not replayed: more than %d distinct counterexamples for this obligation" % MAX_REPLAYED_PER_OBLIGATION
+        if replayed >= MAX_REPLAYED_PER_OBLIGATION or time.time() - t_replay > REPLAY_BUDGET_S.get(tier, 90):
+            d["why"] = "not replayed: more than %d distinct counterexamples (or the replay budget) for this obligation" % MAX_REPLAYED_PER_OBLIGATION
             cands.append(d)
             continue
         replayed += 1
